@@ -97,9 +97,22 @@ LateChain == { << Q("a","c"), Q("a","ch"), Q("a","sc"), Q("a","sc") >>,
                << Q("a","c"), Q("b","pc") >>,
                << Q("a","e") >>,          \* (independent of what b does)
                << Q("a","c"), Q("b","x") >> }
+\* two modules may declare the SAME own prefix string (prefixes only have to differ among the imports of one module):
+\* here b calls itself "a" and imports module a as "x"; what b grafts belongs to b all the same
+ModBX(augs) == [name |-> "b", kind |-> "module", pfx |-> "a", ns |-> "urn:b", belongs |-> "",
+                imports |-> [x \in {"x"} |-> "a"], includes |-> <<>>,
+                body |-> << Stmt("grouping", "bg", << Leaf("bgl") >>), Stmt("container", "bdata", << Leaf("bl") >>) >> \o augs]
+RenX(t) == [rk \in DOMAIN t |-> IF t[rk].p = "a" THEN Q("x", t[rk].n) ELSE IF t[rk].p = "b" THEN Q("a", t[rk].n) ELSE t[rk]]
+SAugSamePfx(dummy) ==
+  { Prog(("a" :> BaseA("unset")) @@ ("b" :> ModBX(<<Aug(RenX(t1), p1)>>)) @@ ("c" :> ModC(<<Aug(t2, p2)>>))) :
+      t1 \in {<< Q("a","c") >>, << Q("a","c"), Q("a","ch") >>, << Q("a","e") >>, << Q("a","r"), Q("a","input") >>, << Q("a","c"), Q("a","ch"), Q("a","sc"), Q("a","sc") >>},
+      \* (the last payload collides with the children of /a:c on TWO names: both collisions are reported, in every run)
+      p1 \in {<< Leaf("y") >>, XPayload, ChoicePayload, << Uses("", "bg") >>, << Uses("a", "bg") >>, << Leaf("l"), Leaf("d"), Leaf("fresh") >>},
+      t2 \in {<< Q("a","c"), Q("b","x") >>, << Q("a","c") >>, << Q("a","c"), Q("b","pc") >>}, p2 \in {<< Leaf("y") >>, << Uses("b", "bg") >>} }
 SAugLate(dummy) ==
   { Prog(("a" :> BaseA("unset")) @@ ("b" :> ModB(<<Aug(t1, p1)>>)) @@ ("c" :> ModC(<<Aug(t2, p2)>>))) :
       t1 \in LateTargets, p1 \in {<< Leaf("y") >>, XPayload, ChoicePayload}, t2 \in LateChain, p2 \in {<< Leaf("y") >>, ChoicePayload} }
+  \cup SAugSamePfx(dummy)
 SAugQuick(dummy) ==
   { Prog(("a" :> BaseA(cc)) @@ ("b" :> ModB(<<Aug(t1, p1)>>)) @@ ("c" :> ModC(<<Aug(t2, p2)>>))) :
       cc \in {"unset", "false"}, t1 \in Targets, p1 \in Payloads("b"), t2 \in ChainTargets, p2 \in ChainPayloads }
@@ -297,7 +310,9 @@ DevBase ==
      Stmt("list", "li", << S1("key", "k"), Leaf("k"), S1("min-elements", 2), S1("max-elements", 5) >>),
      Stmt("container", "co", << Cfg("true"), Leaf("inner") >>),
      Stmt("container", "u", << Uses("", "g") >>),
-     Stmt("container", "u2", << Uses("", "g") >>) >>
+     Stmt("container", "u2", << Uses("", "g") >>),
+     \* a choice with a shorthand member (reached through its implicit case) next to a written case
+     Stmt("choice", "dch", << Leaf("sh"), Stmt("case", "ca", << Leaf("cl") >>) >>) >>
 DevTargets ==     \* [path, kind]
   { [p |-> << Q("a","ld") >>, k |-> "leafd"], [p |-> << Q("a","ln") >>, k |-> "leaf"], [p |-> << Q("a","lt") >>, k |-> "leaf"], [p |-> << Q("a","lm") >>, k |-> "leaf"],
     [p |-> << Q("a","ll") >>, k |-> "leaf-list"], [p |-> << Q("a","lld") >>, k |-> "leaf-listd"],
@@ -307,6 +322,8 @@ DevTargets ==     \* [path, kind]
     [p |-> << Q("a","rp"), Q("a","input") >>, k |-> "io"],
     [p |-> << Q("a","rp"), Q("a","output"), Q("a","ro") >>, k |-> "leaf"],
     [p |-> << Q("a","co"), Q("b","grafted") >>, k |-> "leafd"],
+    [p |-> << Q("a","dch"), Q("a","sh"), Q("a","sh") >>, k |-> "leaf"],  \* a shorthand member: its implicit case stays, empty
+    [p |-> << Q("a","dch"), Q("a","ca"), Q("a","cl") >>, k |-> "leaf"],
     [p |-> << Q("a","nosuch") >>, k |-> "absent"] }
 Dv(kind, kids) == Stmt("deviate", kind, kids)
 Deviates ==
